@@ -115,7 +115,13 @@ class Grammar(Generic[_NodeT]):
             if module_node is not None:
                 return module_node  # type: ignore[no-any-return]
 
+        change_time = None
         if code is None:
+            if (cache or diff_cache) and file_io.path is not None:
+                # The modification time of the cache entry has to be the one
+                # from before reading, otherwise a change of the file in
+                # between would never be noticed.
+                change_time = file_io.get_last_modified()
             code = file_io.read()
         code = python_bytes_to_unicode(code)
 
@@ -143,7 +149,8 @@ class Grammar(Generic[_NodeT]):
                 try_to_save_module(self._hashed, file_io, new_node, lines,
                                    # Never pickle in pypy, it's slow as hell.
                                    pickling=cache and not is_pypy,
-                                   cache_path=cache_path)
+                                   cache_path=cache_path,
+                                   change_time=change_time)
                 return new_node  # type: ignore[no-any-return]
 
         tokens = self._tokenizer(lines)
@@ -159,7 +166,8 @@ class Grammar(Generic[_NodeT]):
             try_to_save_module(self._hashed, file_io, root_node, lines,
                                # Never pickle in pypy, it's slow as hell.
                                pickling=cache and not is_pypy,
-                               cache_path=cache_path)
+                               cache_path=cache_path,
+                               change_time=change_time)
         return root_node  # type: ignore[no-any-return]
 
     def _get_token_namespace(self):
